@@ -13,10 +13,17 @@ for d in seeded/$pat/; do
   else
     git -C /repo apply "$PWD/$d/patch.diff"
   fi
-  out=$(./check "$prop" quick 2>&1); rc=$?
+  # the checks to run: those recorded in meta.json (a change seeded for one property may only be visible through another
+  # property's quantifier), default: the property of the seed id
+  checks=$(python3 -c "import json,sys; m=json.load(open('$d/meta.json')); print(' '.join(m.get('confirmed_by_hand',{}).get('checks_run') or ['$prop']))" 2>/dev/null || echo "$prop")
+  caught=""
+  for c in $checks; do
+    out=$(./check "$c" quick 2>&1); rc=$?
+    n=$(echo "$out" | grep -c "^VIOLATION property=$c ")
+    if [ $rc -eq 1 ] && [ "$n" -ge 1 ]; then caught="$caught $c($n signature(s): $(echo "$out" | grep -m1 'signature:' | cut -c1-110))"; fi
+  done
   git -C /repo checkout -- .
-  n=$(echo "$out" | grep -c "^VIOLATION property=$prop ")
-  if [ $rc -eq 1 ] && [ "$n" -ge 1 ]; then echo "$id: caught ($n signature(s)): $(echo "$out" | grep -m1 'signature:' | cut -c1-140)"; else echo "$id: NOT CAUGHT (rc=$rc)"; fail=1; fi
+  if [ -n "$caught" ]; then echo "$id: caught by$caught"; else echo "$id: NOT CAUGHT (checks run: $checks)"; fail=1; fi
 done
 git -C /repo status --short | head -3
 exit $fail
